@@ -162,7 +162,51 @@ fn judge_accept(rep: &mut Report, cx: &mut Ctx, opname: &str, cell: &str, model_
     }
 }
 
+/// The increment constructors themselves: valid exactly when 1 <= truncate(value) <= 10^9 (both ends inclusive). Returns
+/// false when a valid increment cannot be constructed - the rest of the workload builds its options from them.
+fn increment_constructors(rep: &mut Report) -> bool {
+    use temporal_rs::options::RoundingIncrement;
+    let mut usable = true;
+    for v in [0u32, 1, 2, 7, 999_999_999, 1_000_000_000, 1_000_000_001, u32::MAX] {
+        if !rep.begin() {
+            continue;
+        }
+        let valid = (1..=1_000_000_000).contains(&v);
+        let got = call(|| RoundingIncrement::try_new(v)).map(|x| x.get());
+        match (&got, valid) {
+            (Out::Ok(g), true) if *g == v => {}
+            (Out::Err(ErrorKind::Range, _), false) => {}
+            _ if got.is_broken() => rep.inconclusive("C10.accept", "panic"),
+            _ => {
+                usable &= !valid;
+                rep.violation("C10.accept", "RoundingIncrement::try_new", &format!("({},{})", if v >= 1_000_000_000 { "at-or-above-1e9" } else { "small" }, if valid { "rejected-valid" } else { "accepted-invalid" }), json!({"increment": v}), got.show(), if valid { format!("Ok({v})") } else { "Err(RangeError)".into() });
+            }
+        }
+    }
+    for v in [0.0f64, 0.5, 0.999_999, 1.0, 1.5, 2.9, 1e9 - 0.5, 1e9, 1e9 + 0.5, 1e9 + 1.0, 4e9, -1.0, -0.5, f64::INFINITY, f64::NAN] {
+        if !rep.begin() {
+            continue;
+        }
+        let t = v.trunc();
+        let valid = v.is_finite() && (1.0..=1e9).contains(&t);
+        let got = call(|| RoundingIncrement::try_from(v)).map(|x| x.get());
+        match (&got, valid) {
+            (Out::Ok(g), true) if *g as f64 == t => {}
+            (Out::Err(ErrorKind::Range, _), false) => {}
+            _ if got.is_broken() => rep.inconclusive("C10.accept", "panic"),
+            _ => rep.violation("C10.accept", "RoundingIncrement::try_from(f64)", &format!("({})", if valid { "rejected-valid-or-wrong-value" } else { "accepted-invalid" }), json!({"increment": format!("{v}")}), got.show(), if valid { format!("Ok({t})") } else { "Err(RangeError)".into() }),
+        }
+    }
+    rep.hit("increment/constructors-checked");
+    usable
+}
+
 pub fn run(rep: &mut Report) {
+    if !increment_constructors(rep) {
+        rep.notes.push("a valid increment cannot be constructed: the rest of the C10 workload, which builds its options from increments, was not run".into());
+        rep.evaluations += 23;
+        return;
+    }
     let prov = NoZones;
     let iso = Calendar::default();
     let mut cx = Ctx { evals: 0, accepted: 0, rejected: 0, value_checked: 0 };
